@@ -142,8 +142,9 @@ pub fn gen_model(rng: &mut Rng, min_cols: usize) -> Model {
     let mut cpool: Vec<&str> = rng.pick(&COL_POOLS).to_vec();
     rng.shuffle(&mut cpool);
     let mut col_names: Vec<String> = cpool[..ncols].iter().map(|s| s.to_string()).collect();
-    if !col_names.is_empty() && col_names.iter().all(|n| n.starts_with("OMMX_VAR_")) {
-        // names that all look generated switch the reader to id recovery (C18's territory)
+    if !col_names.is_empty() && col_names.iter().all(|n| n.strip_prefix("OMMX_VAR_").map_or(false, |r| r.parse::<u64>().is_ok())) {
+        // names that all are OMMX_VAR_<n> switch the reader to id recovery (C18's territory);
+        // OMMX_VAR_x next to OMMX_VAR_3 does not
         col_names[0] = "X1".into();
     }
     let mut rpool: Vec<&str> = rng.pick(&ROW_POOLS).to_vec();
@@ -156,7 +157,19 @@ pub fn gen_model(rng: &mut Rng, min_cols: usize) -> Model {
         row_names[0] = "OBJ".into();
     }
 
-    let rows: Vec<Row> = row_names
+    if !avoid && nrows >= 2 && rng.chance(1, 8) {
+        // a file mixing SDK-style row names with foreign ones (e.g. an SDK-written file edited by hand):
+        // some, but not all, rows are called OMMX_CONSTR_<n>
+        let k = 1 + rng.usize_below(nrows - 1);
+        let mut nums = [0u64, 1, 3, 7, 10, 42];
+        rng.shuffle(&mut nums);
+        for i in 0..k {
+            row_names[i] = format!("OMMX_CONSTR_{}", nums[i]);
+        }
+        rng.shuffle(&mut row_names);
+    }
+
+    let mut rows: Vec<Row> = row_names
         .into_iter()
         .map(|name| {
             let ty = *rng.pick(&[RowType::E, RowType::L, RowType::G]);
@@ -177,6 +190,19 @@ pub fn gen_model(rng: &mut Rng, min_cols: usize) -> Model {
             Row { name, ty, rhs, range }
         })
         .collect();
+
+    if rows.len() >= 2 && rng.chance(1, 6) {
+        // a declared row literally called "<ranged row>_": the name the reader would give to the
+        // second constraint of the ranged row is taken, with or without a right-hand side
+        if let Some(i) = rows.iter().position(|r| r.range.is_some()) {
+            let j = (i + 1 + rng.usize_below(rows.len() - 1)) % rows.len();
+            rows[j].name = format!("{}_", rows[i].name);
+            rows[j].range = None;
+            if rng.bool() {
+                rows[j].rhs = None;
+            }
+        }
+    }
 
     let any_integer = rng.chance(3, 5);
     let mut columns: Vec<Column> = vec![];
@@ -505,7 +531,7 @@ fn compare(m: &Model, exp: &Expected, inst: &v1::Instance, ctx: &str, mon: &mut 
         match &c.name {
             None => report(mon, "C17.names:constraint-without-name", format!("constraint id {} carries no name\n{ctx}", c.id)),
             Some(n) => {
-                // generated row names never end with '_'
+                // a generated row name ends with '_' only as the non-ranged sibling "<ranged row>_", which is matched exactly
                 let base = if m.rows.iter().any(|r| &r.name == n) { n.clone() } else { n.trim_end_matches('_').to_string() };
                 groups.entry(base).or_default().push(c);
             }
@@ -645,7 +671,7 @@ impl Property for C17 {
         }
     }
     fn rule(&self) -> &'static str {
-        "each case: one abstract LP/MIP model (<=6 columns, <=5 rows E/L/G with optional RHS and RANGES of both signs, objective row with a foreign name and an optional RHS entry = minus the objective constant, integer marker blocks, BOUNDS from UP LO FX MI PL FR BV LI UI in unambiguous combinations, coefficients k/1..k/8) rendered by the harness's own free-format MPS writer with random layout (3-/5-field lines, comments, blank lines, tabs, CRLF, OBJSENSE inline / own line / absent, several spellings of each number) and loaded through load_raw_reader, load_zipped_reader or load_file; about 75% well-formed files compared by name with the expected problem, 20% files with one injected defect that must be refused, 5% files with entries the reader is known to ignore (counted only). Non-trivial = well-formed file with >=1 column and (>=1 row or a non-constant objective); distinct = fingerprint of the rendered text."
+        "each case: one abstract LP/MIP model (<=6 columns, <=5 rows E/L/G with optional RHS and RANGES of both signs, objective row with a foreign name and an optional RHS entry = minus the objective constant, integer marker blocks, BOUNDS from UP LO FX MI PL FR BV LI UI in unambiguous combinations, coefficients k/1..k/8; one model in eight names some but not all rows OMMX_CONSTR_<n>, one in six with a ranged row R also declares a row called R_) rendered by the harness's own free-format MPS writer with random layout (3-/5-field lines, comments, blank lines, tabs, CRLF, OBJSENSE inline / own line / absent, several spellings of each number) and loaded through load_raw_reader, load_zipped_reader or load_file; about 75% well-formed files compared by name with the expected problem, 20% files with one injected defect that must be refused, 5% files with entries the reader is known to ignore (counted only). Non-trivial = well-formed file with >=1 column and (>=1 row or a non-constant objective); distinct = fingerprint of the rendered text."
     }
     fn assumptions(&self) -> Vec<&'static str> {
         vec![
